@@ -76,6 +76,12 @@ func TestDrv_C20(t *testing.T) {
 						if cases%4 == 2 { // many label sets
 							urls = []string{fmt.Sprintf("http://h%d/", r.Intn(40)), fmt.Sprintf("http://a/p/%d", r.Intn(40))}
 						}
+						if cases%6 == 5 { // texts that carry U+FFFD (what a garbled name became when it was recorded) next to the same texts without it
+							urls = []string{"http://a/caf\ufffd", "http://a/caf"}
+							if e != "" {
+								e += []string{"", ": \ufffd\ufffd", "\ufffd"}[r.Intn(3)]
+							}
+						}
 						code := []uint16{200, 404, 0, 500}[r.Intn(2*few)]
 						if cases%5 == 3 {
 							code = []uint16{200, 0, 20, 2000}[r.Intn(4)]
